@@ -63,9 +63,10 @@ def common(chk, prop, thorough, n_quick, n_thorough, max_ops_q, max_ops_t, hosti
     rng = random.Random(lib.seed())
     tabs, problems = lib.regenerate()
     pr = X.standard_proof(chk, prop, thorough)
-    if prop == "C13":
-        # the EFFECT theorems live in their own module (they need the invariant lemmas of C12)
-        pr2 = X.standard_proof(chk, "C13Effect", thorough)
+    if prop in ("C13", "C15"):
+        # C13: the EFFECT theorems live in their own module (they need the invariant lemmas of C12);
+        # C15: the invariant over histories (every node of every reachable state holds validated data)
+        pr2 = X.standard_proof(chk, "C13Effect" if prop == "C13" else "C15Valid", thorough)
         pr["ok"] = pr["ok"] and pr2["ok"]
         pr["failed"] = list(pr["failed"]) + list(pr2["failed"])
         pr["log"] = pr["log"] + pr2["log"]
@@ -396,6 +397,15 @@ def run_c15(chk):
                 break
     chk.cov["namespace_edit_histories"] = len(nsc)
     chk.cov["default_edit_histories"] = len(dlines)
+    # reach of the invariant THEOREM (Thm/C15Valid `document_stays_valid`): its hypothesis `docOK` - every item of the initial
+    # document would pass the check the DOM applies to supplied data of its kind - evaluated (model only) on every document a
+    # history of this run starts from.  A parsed document that fails it is a gap of the theorem, never a violation.
+    starts = sorted({t for t, _ in cases} | {t for t, _ in nsc} | set(ddocs))
+    th = lib.run_lines(lib.model_driver(), [lib.req("thm15", t) for t in starts], timeout=600, per_line_resume=True)
+    parsed = [(t, r) for t, r in zip(starts, th) if r.startswith("docok=")]
+    chk.cov["theorem_reach"] = {"initial_documents": len(starts), "parsed": len(parsed),
+                                "hypothesis_holds": sum(1 for _, r in parsed if r == "docok=1"),
+                                "gaps": [lib.enc(t)[:160] for t, r in parsed if r != "docok=1"][:5]}
     chk.cov["successful_calls"] = succ
     chk.cov["rule"] = ("%d histories of creation, insertion and data-editing calls with argument strings of up to 4 pieces over "
                        "{a, space, <, &, >, ', \", -, ], ?, ;, #, e-acute, ]]>, --, ?>, &amp;, &#65;} (45%% hostile choices); after EVERY "
